@@ -109,3 +109,19 @@ package dissect
 //@   loop 1 invariant (fresh(ret) && off(ret) == 0) || (ref(ret) == old(ref(s.groupPool.pool)) && off(ret) == old(off(s.groupPool.pool)))
 //@   loop 1 invariant ref(s.groupPool.pool) == ref(ret) && off(s.groupPool.pool) == off(ret) + len(ret)
 //@   loop 1 invariant forall a: int :: forall i: int :: allocated_at_entry(a) && !(a == old(ref(s.groupPool.pool)) && i >= old(off(s.groupPool.pool))) ==> intat(a, i) == old(intat(a, i))
+
+// ---- the compiled pattern's leading literal (C12) ----
+// The leading literal is the text before the first token (the whole expression when it has no
+// token), whatever kind the tokens are (captured, skipped, named skip); in ignore-case mode it is
+// stored ASCII-folded byte for byte.
+//@ func lowerASCIIString
+//@   pure
+//@   ensures len(result) == len(s) && (forall i in [0, len(s)) :: result[i] == afold(s[i]))
+//@   loop 1 invariant len(b) == len(s) && fresh(b) && (forall k in [0, rangeindex + 1) :: b[k] == afold(s[k])) && (forall k in [rangeindex + 1, len(s)) :: b[k] == s[k])
+//@ pred pfx(e) := if str_index(e, "%{") < 0 then e else e[0:str_index(e, "%{")]
+//@ func CompileEx
+//@   ensures [prefix] result1 == nil && !ignoreCase ==> result0 != nil && result0.prefix == pfx(old(expr))
+//@   ensures [prefix-folded] result1 == nil && ignoreCase ==> result0 != nil && len(result0.prefix) == len(pfx(old(expr))) && (forall i in [0, len(pfx(old(expr)))) :: result0.prefix[i] == afold(pfx(old(expr))[i]))
+//@   ensures [error-or-pattern] (result1 == nil) == (result0 != nil)
+//@   loop 1 invariant groupNames != nil && fresh(parts) && groupIndex >= 0 && groupIndex <= len(parts)
+//@   loop 1 invariant (len(parts) == 0 ==> expr == param(expr) && prefix == "") && (len(parts) >= 1 ==> prefix == pfx(param(expr)))
